@@ -3,6 +3,7 @@ package main
 import (
 	"bufio"
 	"fmt"
+	"math/rand"
 	"runtime/debug"
 	"strings"
 
@@ -50,4 +51,23 @@ func trimStack(s string) string {
 		lines = lines[:30]
 	}
 	return strings.Join(lines, "\n")
+}
+
+// replayable wraps a case function for replays: the library ranges over Go
+// maps (face sets), so e.g. the start triangle of a chart or the summation
+// order of a right-hand side differ from run to run and a recorded case does
+// not always show the same behaviour. In replay mode the case is therefore
+// re-generated from its sub-seed and run 20 times (DESIGN 0.5).
+func replayable(r *vlib.Run, fn func(c *vlib.Case)) func(c *vlib.Case) {
+	return func(c *vlib.Case) {
+		if !r.Replaying() {
+			fn(c)
+			return
+		}
+		for i := 0; i < 20; i++ {
+			cc := *c
+			cc.Rng = rand.New(rand.NewSource(c.SubSeed))
+			fn(&cc)
+		}
+	}
 }
